@@ -182,6 +182,11 @@ CORPUS_MASTERS = [
     ("split", [s_("s", [d_("a", "str")]), s_("s", [d_("__x", "int"), d_("b", "int")]),
                s_("t", [s_("c", [d_("a", "str")]), s_("c", [d_("__phil_x", "int"), d_("x__", "int")])], mult=True)],
      "t { c.a = p }\nt { c.__phil_x = 3 }\n"),
+    # a scope at depth 2 written in two blocks, the later block contributing a sub-scope and the elements of a multiple scope:
+    # every node still reports its full dotted path
+    ("split", [s_("c", [s_("y", [d_("a", "int")])]), s_("c", [s_("y", [s_("g", [d_("b", "int")]), s_("m", [d_("e", "int")], mult=True)])]),
+               s_("c", [s_("y", [s_("g", [s_("h", [d_("k", "str")])])])])],
+     "c.y.m { e = 1 }\nc.y.m { e = 2 }\nc.y.g.b = 5\n"),
 ]
 
 
@@ -199,6 +204,7 @@ DIRECT_MASTERS = [
     [s_("s", [d_("m", "int", mult=True, dflt="1")]), s_("s", [d_("m", "int", mult=True, dflt="None")]), s_("s", [d_("m", "int", mult=True, dflt="2")])],
     [s_("s", [s_("t", [d_("a", "int")], mult=True, dis=True)]), s_("s", [s_("t", [d_("a", "int", dflt="5")], mult=True)])],
     [s_("s", [d_("m", "int", mult=True, opt=True, dflt="None")]), s_("s", [d_("m", "int", mult=True, opt=True, dflt="4")])],
+    [s_("c", [s_("y", [d_("a", "int")])]), s_("c", [s_("y", [s_("g", [d_("b", "int")]), s_("m", [d_("e", "int")], mult=True)])])],
 ]
 
 
